@@ -117,6 +117,8 @@ struct E5 : Engine {
 		p["timeout"] = 5 + (int)r.below(r.below(2) ? 40 : 4000); p["client_size_limit"] = (int)(r.below(2) ? 30 + r.below(200) : 2048); p["remove_unknown"] = (int)r.below(2);
 		p["p_file_short"] = r.below(4) == 0 ? (int)r.below(300) : 0; p["p_file_eintr"] = r.below(4) == 0 ? (int)r.below(100) : 0;
 		bool net_faults = p.gets("storage") == "network" && r.below(2);   // resets of the storage connection, at most one per request (sequential plans only)
+		if(p.gets("storage") == "network" && r.below(2)) p["net_servers"] = 2;
+		if(p.gets("storage") == "network" && r.below(2)){ static const int caps[] = {7,16,33,40,64,200,1000}; p["chan_cap"] = caps[r.below(7)]; p["p_short_io"] = r.below(2) ? (int)r.below(300) : 0; }   /* narrow storage connections: a reply reaches the client in pieces, so that a reset can fall between its header and the end of its payload */
 		int nb = 1 + r.below(3); p["browsers"] = nb; p["conc"] = (int)(nb > 1 && r.below(3) == 0); p["reuse"] = (int)(!p.geti("conc") && r.below(4) == 0);   /* reuse: one long-lived session_interface re-targeted to each request with set_cookie_adapter_and_reload() */ p["strategy"] = (int)r.below(3); p["pct_depth"] = 1 + (int)r.below(3); p["pct_len"] = 50 + (int)r.below(2000);
 		// capi: the sessions are driven through the C API (cppcms/capi/session.h), the way other languages use them
 		if(r.below(10) == 0){ p["capi"] = 1; p["location"] = r.below(2) ? "client" : "server"; p["timeout"] = 1000 + (int)r.below(100000); J cr = J::arr(); int nr = 2 + r.below(7);
@@ -276,7 +278,15 @@ struct E5 : Engine {
 		}
 		// configurations that must be refused
 		if(res.ok){ cppcms::json::value b = settings(plan,"client"); cppcms::json::value c; b["session"]["client"] = c; b["session"]["client"]["cbc"] = "aes"; b["session"]["client"]["cbc_key"] = hexkey(1,16); bool threw = false; try { cppcms::session_pool p(b); p.init(); } catch(std::exception const &){ threw = true; } if(!threw) res.fail("weak-config-accepted","CBC encryption without a MAC was accepted"); cnt["config_refusal_checks"]++;
-			cppcms::json::value k = settings(plan,"client"); k["session"]["client"]["encryptor"] = "hmac"; k["session"]["client"]["key"] = hexkey(2,8); threw = false; try { cppcms::session_pool p(k); p.init(); Jar j; session_interface s(p,j); s.load(); s.set("x","y"); s.save(); } catch(std::exception const &){ threw = true; } if(!threw) res.fail("weak-config-accepted","an 8-byte HMAC key was accepted"); }
+			cppcms::json::value k = settings(plan,"client"); k["session"]["client"]["encryptor"] = "hmac"; k["session"]["client"]["key"] = hexkey(2,8); threw = false; try { cppcms::session_pool p(k); p.init(); Jar j; session_interface s(p,j); s.load(); s.set("x","y"); s.save(); } catch(std::exception const &){ threw = true; } if(!threw) res.fail("weak-config-accepted","an 8-byte HMAC key was accepted");
+			/* key material that is missing altogether: no layout may fall back to an empty key (a cookie signed with the empty key would be accepted) */
+			struct Miss { const char *what; const char *enc,*cbc,*hmac; bool key,cbc_key,hmac_key; };
+			static const Miss miss[] = { {"encryptor hmac without session.client.key","hmac",0,0,false,false,false}, {"encryptor aes without session.client.key","aes",0,0,false,false,false},
+				{"hmac=sha1 without session.client.hmac_key",0,0,"sha1",false,false,false}, {"cbc=aes hmac=sha1 with a cbc_key but without session.client.hmac_key",0,"aes","sha1",false,true,false}, {"cbc=aes hmac=sha256 with an hmac_key but without session.client.cbc_key",0,"aes","sha256",false,false,true} };
+			for(const Miss &m:miss){ if(!res.ok) break; cppcms::json::value b = settings(plan,"client"); cppcms::json::value c; b["session"]["client"] = c; if(m.enc) b["session"]["client"]["encryptor"] = m.enc; if(m.cbc) b["session"]["client"]["cbc"] = m.cbc; if(m.hmac) b["session"]["client"]["hmac"] = m.hmac;
+				if(m.key) b["session"]["client"]["key"] = hexkey(3,16); if(m.cbc_key) b["session"]["client"]["cbc_key"] = hexkey(4,16); if(m.hmac_key) b["session"]["client"]["hmac_key"] = hexkey(5,24);
+				threw = false; try { cppcms::session_pool p(b); p.init(); Jar j; session_interface s(p,j); s.load(); s.set("x","y"); s.save(); } catch(std::exception const &){ threw = true; }
+				if(!threw) res.fail("weak-config-accepted",std::string("a configuration with missing key material was accepted and a session was issued: ") + m.what); cnt["config_refusal_checks"]++; } }
 	}
 	static std::string b64(const std::string &in){ static const char *al = "ABCDEFGHIJKLMNOPQRSTUVWXYZabcdefghijklmnopqrstuvwxyz0123456789-_"; std::string o; uint32_t acc = 0; int bits = 0; for(unsigned char c:in){ acc = (acc << 8) | c; bits += 8; while(bits >= 6){ bits -= 6; o += al[(acc >> bits) & 63]; } } if(bits) o += al[(acc << (6-bits)) & 63]; return o; }
 
@@ -371,7 +381,7 @@ struct E5 : Engine {
 		cppcms::json::value v = settings(plan,location);
 		std::string stor = plan.gets("storage","memory");
 		std::vector<std::string> bad_sids; std::set<std::string> live_sids; uint64_t storage_calls = 0;
-		std::unique_ptr<cppcms::impl::tcp_cache_service> net_server;   // declared before the pool: destroyed after it
+		std::unique_ptr<cppcms::impl::tcp_cache_service> net_server,net_server2;   // declared before the pool: destroyed after it; net_server2: the second of two session servers (the session id decides which one keeps a session)
 		cppcms::session_pool pool(v);
 		SpyFactory *spyf = nullptr;
 		if(location != "client"){ std::unique_ptr<SpyFactory> f(new SpyFactory);
@@ -380,7 +390,9 @@ struct E5 : Engine {
 				// a real session storage server (tcp_cache_service with a memory storage behind it) on the simulated network
 				booster::shared_ptr<cppcms::sessions::session_storage_factory> backend(new cppcms::sessions::session_memory_storage_factory());
 				net_server.reset(new cppcms::impl::tcp_cache_service(booster::intrusive_ptr<cppcms::impl::base_cache>(),backend,1,"127.0.0.1",6101,1000000));
-				std::vector<std::string> ips(1,"127.0.0.1"); std::vector<int> ports(1,6101); f->inner.reset(new cppcms::sessions::tcp_factory(ips,ports)); cnt["network_storage_runs"]++; }
+				std::vector<std::string> ips(1,"127.0.0.1"); std::vector<int> ports(1,6101);
+				if(plan.geti("net_servers") == 2){ booster::shared_ptr<cppcms::sessions::session_storage_factory> backend2(new cppcms::sessions::session_memory_storage_factory()); net_server2.reset(new cppcms::impl::tcp_cache_service(booster::intrusive_ptr<cppcms::impl::base_cache>(),backend2,1,"127.0.0.1",6102,1000000)); ips.push_back("127.0.0.1"); ports.push_back(6102); cnt["two_session_servers_runs"]++; }
+				f->inner.reset(new cppcms::sessions::tcp_factory(ips,ports)); cnt["network_storage_runs"]++; }
 			else f->inner.reset(new cppcms::sessions::session_memory_storage_factory());
 			f->spy.reset(new SpyStorage); f->spy->inner = f->inner->get(); f->spy->bad = &bad_sids; f->spy->live = &live_sids; f->spy->calls = &storage_calls; spyf = f.get();
 			pool.storage(std::unique_ptr<cppcms::sessions::session_storage_factory>(f.release())); }
@@ -533,6 +545,7 @@ struct E5 : Engine {
 		simk::Params sp; sp.fault_seed = (uint64_t)plan.geti("fault_seed",1); sp.sched_seed = (uint64_t)plan.geti("sched_seed",1); sp.tick_us = 0;
 		sp.strategy = (int)(((plan.geti("strategy") % 3) + 3) % 3); sp.pct_depth = (int)std::max<int64_t>(1,std::min<int64_t>(plan.geti("pct_depth",2),8)); sp.pct_len = (int)std::max<int64_t>(1,plan.geti("pct_len",500)); sp.text_trace = plan.geti("text_trace");
 		sp.p_file_short = (unsigned)std::max<int64_t>(0,std::min<int64_t>(plan.geti("p_file_short"),900)); sp.p_file_eintr = (unsigned)std::max<int64_t>(0,std::min<int64_t>(plan.geti("p_file_eintr"),500)); sp.file_short_min = 2;
+		if(plan.has("chan_cap")) sp.default_chan_cap = (size_t)std::max<int64_t>(1,std::min<int64_t>(plan.geti("chan_cap"),1<<20)); sp.p_short_read = sp.p_short_write = (unsigned)std::max<int64_t>(0,std::min<int64_t>(plan.geti("p_short_io"),900));
 		{ const J &uf = plan.get("urandom_fail"); for(size_t k=0;k<uf.size() && k<8;k++) sp.urandom_fail_at.push_back((uint32_t)std::max<int64_t>(0,std::min<int64_t>(uf.a[k].as_int(),100000))); }
 		simk::begin(sp);
 		try { if(plan.gets("prop") == "C05") run_c05(plan,res,cnt); else if(plan.geti("capi")) run_capi(plan,res,cnt); else run_c06(plan,res,cnt); }
